@@ -132,18 +132,19 @@ def specDefaults : List (String × String) := [
   ("squishing-rate", "0.99")
 ]
 
-/-- conditions that must make the program exit non-zero before it touches any data (property text: "Unknown method,
-    neighbour-method or eigensolver names, a non-positive target dimension, fewer than 3 neighbours, a negative width
-    or timestep count") -/
-def specGuards : List Expr := [
-  .lookupFails "DIMENSION_REDUCTION_METHODS" (.value "method" .str),
-  .lookupFails "NEIGHBORS_METHODS" (.value "neighbors-method" .str),
-  .lookupFails "EIGEN_METHODS" (.value "eigen-method" .str),
-  .lookupFails "COMPUTATION_STRATEGIES" (.value "computation-strategy" .str),
-  .bin .le (.value "target-dimension" .int) (.lit .int "0"),
-  .bin .lt (.value "num-neighbors" .int) (.lit .int "3"),
-  .bin .lt (.value "gaussian-width" .dbl) (.lit .dbl "0.0"),
-  .bin .lt (.value "timesteps" .int) (.lit .int "0")
+/-- the bad-input predicates that must make the program exit non-zero before it touches any data (property text:
+    "Unknown method, neighbour-method or eigensolver names, a non-positive target dimension, fewer than 3 neighbours, a
+    negative width or timestep count").  These are PREDICATES on option values; how the source spells the test
+    (`k < 3`, `k <= 2`, `!(k >= 3)`, `3 > k`, two tests joined by `||` …) does not matter. -/
+def specGuards : List Atom := [
+  .unknownName "DIMENSION_REDUCTION_METHODS" "method",
+  .unknownName "NEIGHBORS_METHODS" "neighbors-method",
+  .unknownName "EIGEN_METHODS" "eigen-method",
+  .unknownName "COMPUTATION_STRATEGIES" "computation-strategy",
+  .intLt "target-dimension" 1,
+  .intLt "num-neighbors" 3,
+  .dblLt "gaussian-width" 0,
+  .intLt "timesteps" 0
 ]
 
 /-! ## Part 2 — theorems over the generated tables (`decide`: re-checked against every regeneration) -/
@@ -199,9 +200,26 @@ theorem name_maps_correct :
 /-- the documented defaults: a name given as default is one the map accepts -/
 theorem named_defaults_are_valid : ∀ r ∈ specOptions, namedDefaultOk r = true := by decide +kernel
 
-/-- each bad-input condition of the property text is a guard with non-zero exit code that is reached before any data is
-    read (only other such guards, logging switches and stream openings precede it) -/
-theorem guards_present : ∀ c ∈ specGuards, reachesGuard c cliSteps = true := by decide +kernel
+/-- each bad-input predicate of the property text is tested by a guard with non-zero exit code that is reached before
+    any data is read (only other such guards, logging switches and stream openings precede it); the test is matched by
+    MEANING (`atomsOf?`, sound by `atom_fires`), not by spelling -/
+theorem guards_present : ∀ a ∈ specGuards, reachesAtom a cliSteps = true := by decide +kernel
+
+/-- … and nothing else stops the program before the data is read: every early guard is `--help` or a disjunction of
+    exactly these predicates (a guard tightened to `k < 4` or `td <= 1` is rejected here) -/
+theorem guards_exact : ∀ s ∈ cliSteps.takeWhile Step.isPre, preGuardOk specGuards s = true := by decide +kernel
+
+/-- spellings with the same meaning are the same atom; a weakened test is a different one -/
+example : atomsOf? (.bin .le (.value "num-neighbors" .int) (.lit .int "2")) = some [.intLt "num-neighbors" 3] := by
+  decide +kernel
+example : atomsOf? (.not (.bin .ge (.value "num-neighbors" .int) (.lit .int "3"))) = some [.intLt "num-neighbors" 3] := by
+  decide +kernel
+example : atomsOf? (.bin .gt (.lit .int "3") (.value "num-neighbors" .int)) = some [.intLt "num-neighbors" 3] := by
+  decide +kernel
+example : atomsOf? (.bin .ge (.lit .int "0") (.value "target-dimension" .int)) = some [.intLt "target-dimension" 1] := by
+  decide +kernel
+example : atomsOf? (.bin .lt (.value "target-dimension" .int) (.lit .int "0")) ≠ some [.intLt "target-dimension" 1] := by
+  decide +kernel
 
 /-- main() turns every escaping exception into a non-zero exit code -/
 theorem main_catches_everything :
@@ -232,33 +250,49 @@ example : ¬ DefaultsFaithful "std::to_string" cliOptions := by decide +kernel
 
 /-! ## Part 3 — the data path: what is read, what the library receives, what is written -/
 
-/-- the expected data part of `run()` (hand-written from the property text): read with the delimiter; transpose
-    unless --transpose-input; embed with the ONE parameter set on either branch of --precompute; transpose the
-    embedding iff --transpose-output; write it with the delimiter; then, iff both projection files were requested and
-    the method returned a projection, write the projection matrix (as is) and the mean (one value per line). -/
-def specProjCond : Expr :=
-  .bin .and
-    (.ite (.bin .and (.count "output-projection-matrix-file") (.count "output-projection-mean-file"))
-      (.lit .flag "true") (.lit .flag "false"))
-    (.sym "output.projection.implementation")
+/-- the condition under which the projection matrix and the mean are written -/
+def projPred (a : Assign) : Bool := a.pmat && a.pmean && a.hasProj
 
-def specDataPart : List Step := [
-  .readData (.lit .flag "true") "input" (.value "input-file" .str) (.index0 (.value "delimiter" .str)),
-  .transpose (.not (.count "transpose-input")) "input",
-  .embed (.count "precompute") "parameters" "identity_indices(input.cols())" "" "" "",
-  .embed (.not (.count "precompute")) "parameters" "input" "" "" "",
-  .transpose (.count "transpose-output") "output.embedding",
-  .writeMatrix (.lit .flag "true") "output.embedding" (.value "output-file" .str) (.index0 (.value "delimiter" .str)),
-  .guard { cond := .bin .and specProjCond (.not (.sym "projection")), exit := 1, message := "Projection function unavailable" },
-  .writeMatrix specProjCond "projection.proj_mat" (.value "output-projection-matrix-file" .str)
-    (.index0 (.value "delimiter" .str)),
-  .writeVector specProjCond "projection.mean_vec" (.value "output-projection-mean-file" .str),
-  .ret 0
-]
+/-- the expected data part of `run()` (hand-written from the property text), as SEMANTIC steps: what is done, to
+    which object, through which option's stream / delimiter, and under which condition — the condition as a predicate on
+    which flags are present (`tableOfPred`), so that `!opt.count(X)`, `opt.count(X) == 0`, an intermediate `bool`, or a
+    `?:` all mean the same.  Read with the delimiter; transpose unless --transpose-input; embed with THE parameter set on
+    either branch of --precompute (in any order); transpose the embedding iff --transpose-output; write it with the
+    delimiter; then (in any order) iff both projection files were requested and the method returned a projection: write
+    the projection matrix (with the delimiter) and the mean, or exit 1 if the projection is not a matrix projection. -/
+def specRead : List SemStep := [
+  .read "input-file" "delimiter" (tableOfPred fun _ => true),
+  .transpose "input" (tableOfPred fun a => !a.tin)]
 
-/-- the generated data part of run() IS the expected one (regenerated on every run: transposition on the wrong side, a
-    dropped delimiter argument, a second parameter set, a write to the wrong stream … change the left-hand side) -/
-theorem data_path_is_spec : dataPart cliSteps = specDataPart := by decide +kernel
+def specEmbed : List SemStep := [
+  .embed false "parameters" (tableOfPred fun a => a.pre),
+  .embed true "parameters" (tableOfPred fun a => !a.pre)]
+
+def specWrite : List SemStep := [
+  .transpose "output.embedding" (tableOfPred fun a => a.tout),
+  .writeMatrix "output.embedding" "output-file" "delimiter" (tableOfPred fun _ => true)]
+
+def specProjection : List SemStep := [
+  .guard 1 (tableOfPred fun a => projPred a && !a.castOk),
+  .writeMatrix "projection.proj_mat" "output-projection-matrix-file" "delimiter" (tableOfPred projPred),
+  .writeVector "projection.mean_vec" "output-projection-mean-file" (tableOfPred projPred)]
+
+/-- the generated data part of run() MEANS the expected one (regenerated on every run: transposition on the wrong side, a
+    dropped delimiter argument, a second parameter set, a write to the wrong stream, a changed projection condition …
+    change the left-hand side; a different spelling of the same condition, swapped embed branches or swapped
+    projection writes do not) -/
+theorem data_path_is_spec :
+    (semDataPart cliSteps).take 2 = specRead ∧
+    sameSet (((semDataPart cliSteps).drop 2).take 2) specEmbed = true ∧
+    ((semDataPart cliSteps).drop 4).take 2 = specWrite ∧
+    sameSet (((semDataPart cliSteps).drop 6).dropLast) specProjection = true ∧
+    (semDataPart cliSteps).getLast? = some (.ret 0) := by decide +kernel
+
+/-- the semantic reading is faithful: a condition whose truth table is that of a predicate evaluates to that predicate
+    for EVERY option set and run-time state (`table_spec`, from the sufficiency lemma `evalA_sound`) -/
+theorem condition_tables_sound (e : Expr) (p : Assign → Bool) (h : tableOf e = tableOfPred p) (o : Opts)
+    (rt : Runtime) : evalCond cliOptions nameMaps rt o e = some (p (assignOf o rt)) :=
+  table_spec e p h cliOptions nameMaps rt o
 
 /-- all four streams are opened before the data is read (so a projection file that is requested but not written is
     left EMPTY, not absent) -/
@@ -436,7 +470,7 @@ theorem nameMaps_distinct : ∀ m ∈ nameMaps, nameMaps.find? (fun x => x.name 
     * rows of unequal length in the input file
     make `main()` return a non-zero status. -/
 theorem bad_inputs_exit_nonzero (readFile : String → Option Str) (lib : Lib) (o : Opts) :
-    (∀ m ∈ nameMaps, ∀ opt, Expr.lookupFails m.name (.value opt .str) ∈ specGuards →
+    (∀ m ∈ nameMaps, ∀ opt, Atom.unknownName m.name opt ∈ specGuards →
         textOf cliOptions o opt ∉ m.entries.map (·.1) → (cliMain readFile lib o).exit ≠ 0) ∧
     (∀ n : Int, parseIntCxx (textOf cliOptions o "target-dimension").toList = some n → n ≤ 0 →
         (cliMain readFile lib o).exit ≠ 0) ∧
@@ -455,27 +489,20 @@ theorem bad_inputs_exit_nonzero (readFile : String → Option Str) (lib : Lib) (
   have hcatch : catchExit cliMainCatch ≠ 0 := main_catches_everything.1
   refine ⟨?_, ?_, ?_, ?_, ?_, ?_, ?_⟩
   · intro m hm opt hg hk
-    exact mainWith_guard_nonzero _ _ _ _ _ readFile lib o _ hcatch (guards_present _ hg)
-      (fun rt => evalCond_lookupFails _ _ rt o m opt (nameMaps_distinct m hm) hk)
+    exact mainWith_atom_nonzero _ _ _ _ _ readFile lib o _ hcatch (guards_present _ hg)
+      (lookupName_isNone_of_not_mem _ m _ (nameMaps_distinct m hm) hk)
   · intro n hn hle
-    refine mainWith_guard_nonzero _ _ _ _ _ readFile lib o _ hcatch
-      (guards_present (.bin .le (.value "target-dimension" .int) (.lit .int "0")) (by decide)) (fun rt => ?_)
-    refine evalCond_int_cmp _ _ rt o _ .le "0" n 0 hn (by decide +kernel) ?_ (Or.inr rfl)
-    simpa [cmpOp] using (by exact_mod_cast hle : (n : Rat) ≤ 0)
+    exact mainWith_atom_nonzero _ _ _ _ _ readFile lib o (.intLt "target-dimension" 1) hcatch
+      (guards_present _ (by decide)) ⟨n, hn, by omega⟩
   · intro n hn hlt
-    refine mainWith_guard_nonzero _ _ _ _ _ readFile lib o _ hcatch
-      (guards_present (.bin .lt (.value "num-neighbors" .int) (.lit .int "3")) (by decide)) (fun rt => ?_)
-    refine evalCond_int_cmp _ _ rt o _ .lt "3" n 3 hn (by decide +kernel) ?_ (Or.inl rfl)
-    simpa [cmpOp] using (by exact_mod_cast hlt : (n : Rat) < 3)
+    exact mainWith_atom_nonzero _ _ _ _ _ readFile lib o (.intLt "num-neighbors" 3) hcatch
+      (guards_present _ (by decide)) ⟨n, hn, hlt⟩
   · intro x hx hlt
-    refine mainWith_guard_nonzero _ _ _ _ _ readFile lib o _ hcatch
-      (guards_present (.bin .lt (.value "gaussian-width" .dbl) (.lit .dbl "0.0")) (by decide)) (fun rt => ?_)
-    exact evalCond_dbl_lt _ _ rt o _ "0.0" x 0 hx (by decide +kernel) hlt
+    exact mainWith_atom_nonzero _ _ _ _ _ readFile lib o (.dblLt "gaussian-width" 0) hcatch
+      (guards_present _ (by decide)) ⟨x, hx, hlt⟩
   · intro n hn hlt
-    refine mainWith_guard_nonzero _ _ _ _ _ readFile lib o _ hcatch
-      (guards_present (.bin .lt (.value "timesteps" .int) (.lit .int "0")) (by decide)) (fun rt => ?_)
-    refine evalCond_int_cmp _ _ rt o _ .lt "0" n 0 hn (by decide +kernel) ?_ (Or.inl rfl)
-    simpa [cmpOp] using (by exact_mod_cast hlt : (n : Rat) < 0)
+    exact mainWith_atom_nonzero _ _ _ _ _ readFile lib o (.intLt "timesteps" 0) hcatch
+      (guards_present _ (by decide)) ⟨n, hn, hlt⟩
   · intro h
     simp [cliMain, mainWith, h, hcatch]
   · intro hrag
@@ -498,41 +525,23 @@ example : (match matrixOfRows (readRowsWith readLoopRereadsLastLine parseNum ','
 /-- `projection_files`: the projection matrix and the mean are written — to the files the two options name, the matrix
     with the delimiter and as it is (D × d, no transposition step touches it), the mean one value per line — exactly
     when BOTH options were given AND the method returned a projection; for ALL option sets.  Both streams are opened
-    in any case (`streams_opened_first`), so otherwise the files are left empty. -/
+    in any case (`streams_opened_first`), so otherwise the files are left empty.
+    (1) every write step of the generated run() is one of the three expected ones, through the stream and delimiter of
+    the right option, under a condition whose truth table is the expected predicate; (2) both projection writes exist;
+    (3) no transposition touches the projection; (4) such a condition evaluates to "both given ∧ projection present"
+    for every option set and run-time state. -/
 theorem projection_files :
-    (cliSteps.filterMap (fun s => match s with
-        | .writeMatrix c w f d => if w != "output.embedding" then some (w, c, f, some d) else none
-        | .writeVector c w f => some (w, c, f, none)
-        | _ => none)) =
-      [("projection.proj_mat", specProjCond, .value "output-projection-matrix-file" .str,
-          some (.index0 (.value "delimiter" .str))),
-       ("projection.mean_vec", specProjCond, .value "output-projection-mean-file" .str, none)] ∧
+    (∀ s ∈ cliSteps, writeStepOk (tableOfPred projPred) s = true) ∧
+    (cliSteps.any (fun s => match s with | .writeMatrix _ w _ _ => w == "projection.proj_mat" | _ => false) = true ∧
+     cliSteps.any (fun s => match s with | .writeVector _ w _ => w == "projection.mean_vec" | _ => false) = true) ∧
     (∀ s ∈ cliSteps, transposeTargetOk s = true) ∧
-    (∀ (o : Opts) (rt : Runtime), evalCond cliOptions nameMaps rt o specProjCond =
-        some (decide (0 < countOf o "output-projection-matrix-file") &&
-              decide (0 < countOf o "output-projection-mean-file") && rt.hasProjection)) := by
-  refine ⟨by decide +kernel, by decide +kernel, ?_⟩
-  intro o rt
-  have h1 := evalCond_count cliOptions nameMaps rt o "output-projection-matrix-file"
-  have h2 := evalCond_count cliOptions nameMaps rt o "output-projection-mean-file"
-  simp only [evalCond] at h1 h2
-  simp only [specProjCond, evalCond, eval]
-  cases ha : (eval cliOptions nameMaps rt o (.count "output-projection-matrix-file")).truthy with
-  | none => rw [ha] at h1; cases h1
-  | some a =>
-    cases hb : (eval cliOptions nameMaps rt o (.count "output-projection-mean-file")).truthy with
-    | none => rw [hb] at h2; cases h2
-    | some b =>
-      rw [ha] at h1
-      rw [hb] at h2
-      simp only [eval] at ha hb
-      cases h1
-      cases h2
-      simp only [ha, hb]
-      cases hA : decide (0 < countOf o "output-projection-matrix-file") <;>
-        cases hB : decide (0 < countOf o "output-projection-mean-file") <;>
-        cases hP : rt.hasProjection <;>
-        simp [hA, hB, hP, Val.truthy, litVal] at *
+    (∀ (c : Expr), tableOf c = tableOfPred projPred → ∀ (o : Opts) (rt : Runtime),
+        evalCond cliOptions nameMaps rt o c =
+          some (decide (0 < countOf o "output-projection-matrix-file") &&
+                decide (0 < countOf o "output-projection-mean-file") && rt.hasProjection)) := by
+  refine ⟨by decide +kernel, by decide +kernel, by decide +kernel, ?_⟩
+  intro c hc o rt
+  exact table_spec c projPred hc cliOptions nameMaps rt o
 
 /-- `precompute_same_params`: no `tapkee::kw = expr` row mentions --precompute, both branches of `if (opt.count(
     "precompute"))` pass the SAME parameter set and the same data to the library, and therefore the parameter set is the
